@@ -14,7 +14,7 @@ META = dict(
     functions_encoded=['(*Arch).IsWildcard', '(*Arch).Is', '(*ArchSet).Matches', '(*Dependency).GetPossibilities', '(*Dependency).GetAllPossibilities',
                        '(*Dependency).GetSubstvars', 'VersionRelation.SatisfiedBy', 'version.Parse', 'version.Compare', 'version.verrevcmp'],
     stubs=['strings.* models as in C03'],
-    bounds={'quick': 'architectures: the atomic all, or a triple of symbolic 3-byte components each either "any" or an arbitrary name other than any/all; lists of 0-2 entries with symbolic negation; dependencies of 2 relations x 3 alternatives with symbolic substvar/empty-list/negation flags, a multiarch qualifier, a version constraint and a build-profile restriction present on all / none / alternating alternatives (14 patterns), and symbolic 1-byte cpu and qualifier names; (op, N, V): op any string of length 0-2 over {<,>,=,x}, N any string of length <= 3 over [0-9.~:-a ], V with any 64-bit epoch, upstream <= 2, revision <= 1',
+    bounds={'quick': 'architectures: the atomic all, or a triple of symbolic 3-byte components each either "any" or an arbitrary name other than any/all; lists of 0-2 entries with symbolic negation; dependencies of 2 relations x 3 alternatives with symbolic substvar/empty-list/negation flags, a multiarch qualifier, a version constraint and a build-profile restriction present on all / none / alternating alternatives (14 patterns), symbolic 1-byte cpu and qualifier names, package names over {a,b} (alternatives and relations may share a name); SatisfiedBy asked twice; (op, N, V): op any string of length 0-2 over {<,>,=,x}, N any string of length <= 3 over [0-9.~:-a ], V with any 64-bit epoch, upstream <= 2, revision <= 1',
             'thorough': 'lists of 0-3 entries; N up to 4 characters, V upstream <= 3'},
     outside_claim=['"all" as one component of a mixed triple (excluded by the quantifier)', 'wildcard against wildcard (the statement is silent)', 'longer version numbers'],
     assumptions=['data independence: the code only tests components for equality with "any", "all" and with each other, so 3-byte symbolic names are exhaustive up to renaming',
@@ -82,7 +82,9 @@ def run_job(env, job):
         for s in ents + [o, q]:
             assume.append(in_set(s[0], b'abc'))
         extra = [bool((job[nm] >> i) & 1) for nm in ('qf', 'vr', 'st') for i in range(6)]
-        return run_harness(env, PKG, 'VerifC06Select', bools + ents + [o] + extra + [q], assume, unwind=16,
+        nm = symstr('nm', 6)
+        assume += [in_set(c, b'ab') for c in nm]
+        return run_harness(env, PKG, 'VerifC06Select', bools + ents + [o] + extra + [q, nm], assume, unwind=16,
                            sample='selection over 2 relations x 3 alternatives, symbolic substvar/empty/negation flags, qualifier/version/profile presence masks %d/%d/%d, cpu and qualifier names over {a,b,c}' % (job['qf'], job['vr'], job['st']))
     op, n = symstr('op', job['lo']), symstr('n', job['ln'])
     uv, rv = symstr('uv', job['lu']), symstr('rv', job['lr'])
@@ -102,7 +104,7 @@ def validation_calls(env, seed):
         calls.append(('VerifC06Set', [rnd.randint(0, 3), rnd.random() < .5] + [rnd.choice(names) for _ in range(12)]))
     for _ in range(15):
         calls.append(('VerifC06Select', [rnd.random() < .4 for _ in range(18)] + [rnd.choice([b'a', b'b']) for _ in range(7)] +
-                      [rnd.random() < .4 for _ in range(18)] + [rnd.choice([b'a', b'b'])]))
+                      [rnd.random() < .4 for _ in range(18)] + [rnd.choice([b'a', b'b']), bytes(rnd.choice(b'ab') for _ in range(6))]))
     for op in (b'<<', b'<=', b'=', b'>=', b'>>', b'', b'x', b'=='):
         for n, v in ((b'1.0', b'1.0'), (b'1.0', b'1.1'), (b'2', b'1'), (b'a', b'1'), (b'1.0-0', b'1.0'), (b'1.00', b'1.0')):
             calls.append(('VerifC06Sat', [op, n, 0, v, b'']))
